@@ -13,6 +13,8 @@ Circuit spec (the JSON input of most items):   {"regs": [n_emitter, n_photon, n_
       | ["mz", type, reg, creg]                      MeasurementZ
 A spec may carry "edits": [["replace", k, op] | ["remove", k] | ["insert_front", op]] applied after the adds through the real
 replace_op / remove_op / insert_at (k = index into "ops"; insert_front puts a one-qubit op first on its register).
+Edit-history spec (export.after_edit_history): {"regs": [...], "seed": s, "len": L [, "focus", "cfocus"]} - the circuit is produced by
+the C12 edit driver (bounded/C12.py Run) and compared with its wire model (refsem/dagmodel.py).
 Atom spec (single-operation items):  ["g", Class, type] | ["w", [Class..], type] | ["cx", ctype, ttype] | ... |
    ["mz", type]; the checker places the op on every register index (and classical register) from IDX = {0,1,9,10,11}.
 
